@@ -268,6 +268,57 @@ def one(ctx: Ctx, cs):
         ctx.sample({'case_seed': cs, 'history': [f'{a[:90]} -> {b}' for a, b in log]})
 
 
+def one_ranges(ctx: Ctx, cs):
+    """Histories made only of measure-range exports (every call reads the spine-operator / signature recovery code of the exporter) on
+    scores with nested splits that are re-joined before the barline: the k-th call must equal the first call on a fresh import."""
+    import kernpy as kp
+    from ..model import measures as MM
+    over = [dict(p_split=0.35, p_consecutive_ops=0.6, measures=(3, 6), rows=(2, 4), rejoin_before_barline=True),
+            dict(p_split=0.5, p_join=0.15, p_consecutive_ops=0.8, measures=(3, 5), rows=(3, 5), rejoin_before_barline=True, max_spines=2),
+            dict(p_split=0.2, measures=(3, 7), p_midsig=0.0)][cs % 3]
+    doc, pname = make_doc(cs, 'kern_core', **over)
+    x = doc.text(0)
+    ctx.ev()
+    ctx.mon('range_histories')
+    if 'nested_splits' in doc.tags:
+        ctx.mon('range_histories_nested_splits')
+    d, e, exc = kpx.loads(x)
+    if exc is not None or e:
+        ctx.mon('precondition_failed')
+        return
+    M = len(MM.measure_starts(doc))
+    rng = random.Random(cs ^ 0xC141)
+    snap0 = kpx.snapshot(d)
+    log = []
+    for i in range(rng.randint(5, 9)):
+        a = rng.randint(1, M)
+        kw = {'from_measure': a}
+        if rng.random() < 0.5:
+            kw['to_measure'] = rng.randint(a, M)
+        if rng.random() < 0.4:
+            kw['encoding'] = rng.choice(kpx.ENCODINGS)
+        if rng.random() < 0.15:
+            kw['spine_ids'] = [rng.randrange(len(doc.headers))]
+        desc = f'dumps({ {k: str(v) for k, v in kw.items()} })'
+        ctx.ev()
+        ctx.mon('calls')
+        res = call(lambda dd: kp.dumps(dd, **kw), d)
+        log.append(desc)
+        case = {'case_seed': cs, 'text': x, 'history': list(log), 'phase': 'ranges'}
+        ctx.mon('snapshots')
+        if kpx.snapshot(d) != snap0:
+            ctx.violation('document-mutated', f'call #{i + 1} {desc} changed the document; history {log}', case)
+            snap0 = kpx.snapshot(d)
+        fresh, _, _ = kpx.loads(x)
+        res_f = call(lambda dd: kp.dumps(dd, **kw), fresh)
+        ctx.mon('fresh_comparisons')
+        if res_f != res:
+            ctx.violation('history-dependent-result', f'call #{i + 1} {desc} returns a different result after the history {log[:-1]} '
+                          f'than on a freshly imported copy ({str(res)[:80]} vs {str(res_f)[:80]})', case)
+    if 'splits' in doc.tags:
+        ctx.nontriv('ranges', cs)
+
+
 def run(ctx: Ctx):
     ctx.rule = ('per generated document a history of 6..12 read-only operations (dumps with arbitrary - also invalid - options, token / unique / '
                 'encodings / frequency queries with filters, metacomments, spine_types, is_monophonic, iteration, measures_count, header and '
@@ -275,15 +326,20 @@ def run(ctx: Ctx):
                 'Monitor: deep structural snapshot of the document (every node, link, token and sub-token field, measure index, bounding boxes) and '
                 'fingerprints of 11 module-level constants before and after EVERY call, caller-owned option objects compared after the call; '
                 'every call\'s result is compared with the same call on a fresh import. Non-trivial = history with >= 1 raising call and >= 3 '
-                'distinct operations; distinct by history.')
+                'distinct operations; distinct by history.  Second phase: histories of 5..9 measure-range exports (random valid ranges, encodings, one '
+                'selected spine) of scores with nested splits re-joined before the barline, each compared with the same call on a fresh import.')
     ctx.assumptions = ['graph output is compared modulo renaming of node identifiers (memory addresses / global counter)']
     n = 130 if ctx.tier == 'quick' else 1000
     for cs in cases(ctx, 'c14', n):
         one(ctx, cs)
+    for cs in cases(ctx, 'c14-ranges', n // 2):
+        one_ranges(ctx, cs)
+    if ctx.shard is None and ctx.monitor_events.get('range_histories_nested_splits', 0) < 5:
+        ctx.inconc('fewer than 5 measure-range histories on a score with nested splits')
     ctx.floors = {'calls': ('calls', 800), 'snapshots': ('snapshots', 800), 'raising': ('raising_calls', 30)}
 
 
 def replay(ctx, w):
     case = w.get('case', w)
-    one(ctx, case['case_seed'])
+    (one_ranges if case.get('phase') == 'ranges' else one)(ctx, case['case_seed'])
     print(case.get('text', ''))
